@@ -246,6 +246,7 @@ class RawClient:
         self.serial = 0
         self._buf = b''
         self.connected = True
+        self.little = True              # byte order this peer writes in (every second attached peer is big-endian)
 
     def pump(self):
         """Decode what the bus wrote to this client since the last call."""
@@ -261,19 +262,29 @@ class RawClient:
         self.inbox.extend(new)
         return new
 
-    def send(self, mtype, fields, sig='', trees=(), flags=0, little=True, serial=None):
+    def send(self, mtype, fields, sig='', trees=(), flags=0, little=None, serial=None):
         """Send one message; returns its serial."""
         from . import refcodec as R
+        if little is None:
+            little = self.little
         if serial is None:
             self.serial += 1
             serial = self.serial
-        raw = R.encode_message(mtype, serial, fields, sig, list(trees), little=little, flags=flags)
+        raw = R.encode_variant(serial, mtype, serial, fields, sig, list(trees), little=little, flags=flags)
         deliver(self.proto, raw)
         return serial
 
     def call_bus(self, member, sig='', trees=(), path='/org/freedesktop/DBus'):
         """Method call to org.freedesktop.DBus; returns the decoded reply (or None)."""
-        s = self.send(1, {1: path, 2: 'org.freedesktop.DBus', 3: member, 6: 'org.freedesktop.DBus'}, sig, trees)
+        fields = {1: path, 2: 'org.freedesktop.DBus', 3: member, 6: 'org.freedesktop.DBus'}
+        # SENDER is the peer's to write and the bus's to overwrite: absent, truthful, or naming somebody else
+        k = (self.serial + 1) % 3
+        if self.name and k == 1:
+            others = [x.name for x in self.rig.clients if x is not self and x.name and x.connected]
+            fields[7] = others[self.serial % len(others)] if others else ':1.4242'
+        elif self.name and k == 2:
+            fields[7] = self.name
+        s = self.send(1, fields, sig, trees)
         self.rig.pump_all()
         for m in self.inbox:
             if m['type'] in (2, 3) and m['fields'].get(5) == s:
@@ -309,6 +320,7 @@ class BusRig:
     def attach(self, hello=True):
         p = self.new_protocol()
         c = RawClient(self, p)
+        c.little = len(self.clients) % 2 == 0
         deliver(p, b'\0AUTH ANONYMOUS 7665726966\r\n')
         out = p.transport.take()
         if not out.startswith(b'OK '):
